@@ -17,7 +17,7 @@ def fill(claim, na):
       'static constructor evaluation (AST partial evaluator) + exhaustive table rules', 'DESIGN.md §3 C17')
 
     c('C10',
-      'Decision procedure over all syntactic paths: every line definition, PDF value function and needs_filing method of all three years (about 2 550 definitions, 4 900 paths) is abstractly interpreted with helpers and the core methods it calls inlined from source; every input/line/form/threshold/enum/attribute/callee reference on any path is resolved against the statically built same-year catalogue (rules R10.1-R10.9, incl. unbounded indices into fixed name blocks and s.form() availability). Exhaustive over the shipped definitions; independent of which inputs make a path execute.',
+      'Decision procedure over all syntactic paths: every line definition, PDF value function and needs_filing method of all three years (about 2 550 definitions, 4 900 paths) is abstractly interpreted with helpers and the core methods it calls inlined from source; every input/line/form/threshold/enum/attribute/callee reference on any path is resolved against the statically built same-year catalogue (rules R10.1-R10.9, incl. unbounded indices into fixed name blocks and s.form() availability). R10.10: the set of run-time types each returned expression can have (Python numeric promotion; sum over zero copies = the int 0 unless the path guards exclude the empty case, decided by constant folding and exact linear infeasibility) must be the declared line type, otherwise the type choke point aborts the solve with a TypeError instead of computing the line (about 1 940 line definitions). Exhaustive over the shipped definitions; independent of which inputs make a path execute.',
       'Trusted: sa/interp.py and sa/lineabs.py (fail closed: unmodelled constructs are listed as undecided or raise an analysis error; floors on the number of definitions, paths, reads and call sites). Assumes integer inputs used to build names are >= 0. Forms in sa/data/absent_forms.json (1040_s2, 1099-oid) are accepted as deliberately absent.',
       'abstract interpretation of line definitions (path enumeration, inlined helpers) + catalogue resolution', 'DESIGN.md §3 C10')
 
